@@ -3,8 +3,9 @@ import Goyang.Lemmas.Find
 C17 — schema path lookup finds exactly the node the path names.
 
 Model: `Goyang.Model.find` / `walkParts` (Model/Find.lean, a transliteration of `Entry.Find` after
-the repair ec88a45: below an rpc/action only `input`/`output` exist, an absent one is created with
-its parent).  Specification: Spec/Find.lean (`absPath`, `relPath`, `Spells`/`AbsSpelling`,
+the repairs ec88a45 (below an rpc/action only `input`/`output` exist, an absent one is created with
+its parent), 181512d (an action without written input/output is rpc-like too) and a18c57d (an
+absolute path without prefix started in a submodule's private tree is looked up in its owner's).  Specification: Spec/Find.lean (`absPath`, `relPath`, `Spells`/`AbsSpelling`,
 `Denotes`, `wfKeys`/`WFForest`, `NamesNoChild`, `Grown`).
 
 Hypotheses and where they come from
@@ -70,7 +71,8 @@ theorem good_qa : GoodPrefix "qa" := ⟨by decide, by decide, by decide⟩
 
 /-- **Absolute round trip, every spelling.**  In a well-formed forest, from any start location
 (of any tree, existing or not) whose context module resolves the first step's prefix to the
-target's module — or with a bare first step when the target is in the start's own tree — and with
+target's module — or with a bare first step when the target is in the tree of the start's own module
+(`homeTree`: a submodule's private tree gives way to its owner's) — and with
 the later steps spelled with any prefixes or none: the lookup returns exactly the target location
 and leaves the forest untouched.  Targets below rpc/action input and output, inside cases and
 grafted nodes are ordinary locations. -/
@@ -128,7 +130,7 @@ example : find exReg exF (1, []) 1 (renderAbs ["qa:ch", "x0", "zz:x0"]) =
 /-- Non-vacuity: a bare first step stays in the start node's own tree. -/
 example : find exReg exF (1, [.child "y"]) 1 (renderAbs ["k", "z"]) = (some (1, [.child "k", .child "z"]), exF) :=
   find_abs_roundtrip_spelled exReg exF exF_wf _ 1 1 _ (leaf "z") _ (by rfl)
-    (AbsSpelling.own (.child "k") _ _ rfl (Spells.cons (SpellsStep.bare (.child "z")) Spells.nil))
+    (AbsSpelling.own (.child "k") _ _ (by rfl) (Spells.cons (SpellsStep.bare (.child "z")) Spells.nil))
 
 /-- Non-vacuity of the enumeration: the rpc input leaf is a member of `nodes treeA`. -/
 example : (([.child "r", .input, .child "i"] : Path), leaf "i") ∈ nodes treeA := by
@@ -199,22 +201,24 @@ theorem find_absent_first_step_rel (reg : Registry) (f : Forest) (start : Loc) (
   absent_first_rel reg f start ctx bad post e hslash hb0 hnode hbad
 
 /-- The first step of an absolute path names no child of the root of the tree its prefix selects
-(`t`: the start's own tree for a bare step, else the tree the prefix denotes). -/
+(`t`: the tree of the start's own module for a bare step, else the tree the prefix denotes). -/
 theorem find_absent_first_step_abs (reg : Registry) (f : Forest) (start : Loc) (ctx : Nat)
     (bad : String) (post : List String) (t : Nat) (root : Entry)
     (hslash : ∀ s ∈ bad :: post, '/' ∉ s.toList)
-    (hsel : (if (splitPrefix bad).1 == "" then some start.1 else prefixTree reg ctx (splitPrefix bad).1) = some t)
+    (hsel : (if (splitPrefix bad).1 == "" then some (homeTree reg start.1)
+             else prefixTree reg ctx (splitPrefix bad).1) = some t)
     (ht : f.tree? t = some root) (hbad : NamesNoChild root bad) :
     (find reg f start ctx (renderAbs (bad :: post))).1 = none :=
   absent_first_abs reg f start ctx bad post t root hslash hsel ht hbad
 
-/-- A first prefix that the context module does not bind to a loaded module: nothing is found
-and the forest is unchanged. -/
+/-- A first prefix that the context module does not bind to a loaded module: nothing is found;
+goyang records the failure as an error on the root entry of the tree the lookup started in (that
+is the forest `withPrefixError`), everything else is unchanged. -/
 theorem find_unknown_prefix (reg : Registry) (f : Forest) (start : Loc) (ctx : Nat) (parts : List String)
     (hne : parts ≠ []) (hslash : ∀ s ∈ parts, '/' ∉ s.toList)
     (hp : (splitPrefix (parts.headD "")).1 ≠ "")
     (hsel : prefixTree reg ctx (splitPrefix (parts.headD "")).1 = none) :
-    find reg f start ctx (renderAbs parts) = (none, f) :=
+    find reg f start ctx (renderAbs parts) = (none, withPrefixError f start.1) :=
   unknown_prefix reg f start ctx parts hne hslash hp hsel
 
 /-- `..` above the root of a tree returns nothing. -/
@@ -258,12 +262,14 @@ example : (find exReg exF (0, [.child "c"]) 0 (render false (["x"] ++ "q" :: [])
 /-! ### frame -/
 
 /-- **Frame.**  Whatever the start and the path, a lookup changes at most one tree of the
-forest, and only by `Grown`: zero or more creations of an absent rpc/action input or output
-(`GrowStep`), nothing else.  (For the paths of existing nodes the round-trip theorems give
-"no change at all".) -/
+forest, and only in one of two ways: by `Grown` — zero or more creations of an absent rpc/action
+input or output (`GrowStep`), nothing else — or, when the lookup fails because the first prefix
+cannot be resolved, by the error goyang records on the root entry of the start tree.  (For the
+paths of existing nodes the round-trip theorems give "no change at all".) -/
 theorem find_frame (reg : Registry) (f : Forest) (start : Loc) (ctx : Nat) (name : String) :
     (find reg f start ctx name).2 = f ∨
-    ∃ t root root', f.tree? t = some root ∧ Grown root root' ∧ (find reg f start ctx name).2 = f.setTree t root' :=
+    (∃ t root root', f.tree? t = some root ∧ Grown root root' ∧ (find reg f start ctx name).2 = f.setTree t root') ∨
+    ((find reg f start ctx name).1 = none ∧ (find reg f start ctx name).2 = withPrefixError f start.1) :=
   frame reg f start ctx name
 
 /-- What `Grown` cannot do: every location of the old tree is a location of the new tree and
